@@ -25,7 +25,7 @@ def gen_body(seed, n):
 
 
 def run_dir(name):
-    d = os.path.join(util.BUILD, "run", name)
+    d = os.path.join(util.RUNDIR, name)
     shutil.rmtree(d, ignore_errors=True)
     os.makedirs(d)
     return d
